@@ -212,6 +212,46 @@ def push_tie(r, n):
     return len(cases), short
 
 
+def fused_tie(r):
+    """C: the semantics given to the fused index / count primitives in Proofs/Opt.v against the real fused
+    primitives, on marked (sorted up / down at run time, or derived from ordered literals) and unmarked
+    arrays with tied extremes, rank 1 and 2, and empty arrays"""
+    rc, out, err = run_bin("c01", ["fusedtie", 0], seed=r.seed, timeout=600)
+    recs = json_lines(out)
+    cases = [c for c in recs if "arr" in c]
+    if rc != 0 or not cases:
+        r.broken_obligation("tie-harness", "c01 fusedtie failed", (out + err)[-2000:])
+        return 0
+    hdr = HDR + "From UV Require Import Model.Prims Proofs.Opt.\n"
+    jobs, shard = [], 400
+    for si, ch in enumerate(chunks(cases, shard)):
+        body = ";\n".join("(%d%%N, %s, %s)" % (c["id"], c["arr"], ("Some (%d)%%Z" % c["val"]) if c["ok"] else "None") for c in ch)
+        jobs.append(("c01_f_%d" % si, hdr + "Definition cases : list (N * arr * option Z) := [\n%s\n].\nEval vm_compute in (fcodes_from 0%%N cases).\n" % body))
+    res = coq_eval_many(jobs, timeout=600)
+    bad, unspec = [], 0
+    for si, (rc2, o) in enumerate(res):
+        if rc2 != 0:
+            r.broken_obligation("tie-eval", "Coq evaluation of a fused-primitive shard failed", o[-1500:])
+            continue
+        ints = coq_ints(o)
+        for i in range(0, len(ints) - 1, 2):
+            if ints[i + 1] == 2:
+                unspec += 1
+            else:
+                bad.append(cases[si * shard + ints[i]])
+    r.coverage["tie_fused"] = {"kind": "C", "cases": len(cases), "marked_up": sum(1 for c in cases if c["marked_up"]),
+                               "marked_down": sum(1 for c in cases if c["marked_down"]), "unmarked": sum(1 for c in cases if not c["marked_up"] and not c["marked_down"]),
+                               "error_cases": sum(1 for c in cases if not c["ok"]), "outside_model": unspec, "mismatches": len(bad),
+                               "per_primitive": {str(i): sum(1 for c in cases if c["id"] == i) for i in sorted(set(c["id"] for c in cases))}}
+    r.log("fused tie: %d cases (%d marked up, %d marked down), %d mismatches, %d outside the model"
+          % (len(cases), r.coverage["tie_fused"]["marked_up"], r.coverage["tie_fused"]["marked_down"], len(bad), unspec))
+    if bad:
+        c = bad[0]
+        r.broken_obligation("tie:Proofs/Opt.v prim_sem~fused primitives", "the model of a fused primitive and the implementation disagree on %d of %d cases" % (len(bad), len(cases)),
+                            json.dumps(c, ensure_ascii=False))
+    return len(cases)
+
+
 def base_rule(name):
     name = re.sub(r"(-lit)?(-\d+)?$", "", name)
     name = re.sub(r"^reduce-depth-.*", "reduce-depth", name)
@@ -263,6 +303,7 @@ def search(r, m):
                     % (len(cs), c["src"], c["args"] or "none", c["ref"], c["got"], c["cfg"]), {"count": len(cs), "examples": cs[:3]},
                     kind="converse-divergence", theorem="C01 (last sentence: rewrites may only change speed)")
     r.coverage["search"] = dict(s, distinct_violations=len(seen), converse_keys=sorted(by_rule))
+    r.coverage["marked_tied_family"] = {"programs": s.get("marked_tied_programs"), "note": "every rule whose fused form has or could get a sortedness shortcut x {literal, sort, reverse sort, select by rise/fall, reverse, negate sort} x arrays with repeated max/min of rank 1 and 2; also inside rows and behind a function / constant binding"}
     r.coverage["regression_corpus"] = {"programs": s.get("regression_programs"), "note": "bare reproducers of every defect found so far, replayed first; repaired ones are no longer known findings, so a regression prints a VIOLATION"}
     r.log("search: %d programs (%d succeed without rewrites), %d violations, %d converse divergences; corpus %d/%d"
           % (s["programs"], s["reference_ok"], len(seen), len(conv), s["corpus_reference_ok"], s["corpus_items"]))
@@ -285,11 +326,12 @@ def run(r):
     table_tie(r)
     a = v_tie(r, 700 if quick else 12000)
     b = push_tie(r, 500 if quick else 6000)
+    f = fused_tie(r)
     m = 2500 if quick else 60000
     if r.broken:
         m *= 3
     e = search(r, m)
-    r.coverage["evaluations"] = a[0] + b[0] + e
+    r.coverage["evaluations"] = a[0] + b[0] + f + e
     r.coverage["distinct_nontrivial"] = a[1] + b[1]
     r.coverage["rule"] = ("V: distinct raw trees (compiled with every rewrite off) of sources that embed each rule's left-hand side bare, inside operands, "
                           "after literals and nested up to 3 deep, at Full and Early; non-trivial = the optimiser changed the tree / push shortened the run; "
